@@ -26,6 +26,8 @@ impl MedianAbsDev {
 //@sig pub fn peek(&self) -> (r: ValueType)
 	requires self.inv()
 	ensures mad_def(self.smm.window.view(), r@),
+		// C12: a dispersion measure is never negative
+		r@ >= 0real,
 //@src self.smm.get_window().as_slice().iter() ==> SliceIt::new(self.smm.get_window().as_slice())
 //@hint chain 0
 		invariant_except_break
@@ -50,6 +52,8 @@ impl MedianAbsDev {
 		let a = abs_dev_sum(self.smm.window.view(), smm@);
 		let d = self.divider@;
 		assert(a * d == a / n) by(nonlinear_arith) requires d * n == 1real, n >= 1real;
+		lemma_abs_dev_nonneg(self.smm.window.view(), smm@);
+		assert(a / n >= 0real) by(nonlinear_arith) requires a >= 0real, n >= 1real;
 		assert(is_median(self.smm.window.view(), smm@) && r@ == a / (self.smm.window.view().len() as real));
 	}
 //@end
@@ -81,6 +85,8 @@ impl Method for MedianAbsDev {
 	}
 //@end
 //@extract src/methods/median_abs_dev.rs impl[Method for MedianAbsDev]::next
+	// C12: never negative
+	ensures r@ >= 0real,
 //@end
 }
 
